@@ -172,6 +172,21 @@ def shape_candidates(spec):
         x = {"kind": "proofflow", "suite": sh.get("suite", "sha"), "msgs": nested(msgs), "hdr": hshape(sh.get("header_shape", 0)),
              "ph": hshape(sh.get("ph_shape", 0)), "idx": _fmt(idx), "edit": sh.get("edit", 0)}
         return ["\n".join("TRANSPORT %s=%s" % (k, v) for k, v in x.items())]
+    if str(sh.get("contract", "")).startswith("blind_proof_gen"):
+        L, M = sh.get("L", 0), sh.get("M", 0)
+        x = {"kind": "blindproofflow", "suite": sh.get("suite", "sha"), "msgs": nested([[7 + i] * ((i + 1) % 3) for i in range(L)]),
+             "cmsgs": nested([[3 + i] * ((i + 2) % 3) for i in range(M)]), "hdr": hshape(sh.get("header_shape", 0))}
+        return ["\n".join("TRANSPORT %s=%s" % (k, v) for k, v in x.items())]
+    if str(sh.get("contract", "")).startswith("blind_sign refuses"):
+        n = sh.get("commitment_len", 0)
+        b = []
+        if n >= 48:
+            b = _model_g1()
+            while len(b) + 32 <= n:
+                b += _model_scalar()
+        b += [1] * (n - len(b))
+        x = {"kind": "op", "entry": "blind_sign", "suite": sh.get("suite", "sha"), "pk": 5, "commitment": _fmt(b), "msgs": _fmt([1] * sh.get("L", 0)), "hdr": "None", "expect_err": "true"}
+        return ["\n".join("TRANSPORT %s=%s" % (k, v) for k, v in x.items())]
     if str(sh.get("contract", "")).startswith("commit ->"):
         L, M = sh.get("L", 0), sh.get("M", 0)
         x = {"kind": "blindflow", "suite": sh.get("suite", "sha"), "msgs": nested([[7 + i] * ((i + 1) % 3) for i in range(L)]),
